@@ -94,6 +94,8 @@ def run_checks(src, sid, rec, checks):
                 results[c] = dict(rc=rc2, detected=(rc2 == 1 and any(l.startswith("VIOLATION") for l in lines)), lines=[l[:400] for l in lines], wall_s=round(time.time() - t, 1))
     finally:
         sh(["git", "-C", REPO, "checkout", "--", "."])
+        # the Gen files were regenerated from the patched tree: bring them back to the clean tree
+        sh(["python3", os.path.join(VERIF, "tools", "gen_facts.py")], cwd=VERIF)
     rec["checks_run"] = results
     dst = os.path.join(VERIF, "seeded", sid)
     os.makedirs(dst, exist_ok=True)
